@@ -24,12 +24,12 @@ PROPS = {
                         "round trip over all widths/indents is not enumerated; the token-level argument is layout-independent"],
     },
     "C15": {
-        "rules": [typing_rules.rule_zip, typing_rules.rule_dup, typing_rules.rule_nodup, typing_rules.rule_result, typing_rules.rule_clause_exits, typing_rules.rule_lookup, typing_rules.rule_checkall, typing_rules.rule_instance,
+        "rules": [typing_rules.rule_zip, typing_rules.rule_dup, typing_rules.rule_nodup, typing_rules.rule_result, typing_rules.rule_clause_exits, typing_rules.rule_lookup, typing_rules.rule_checkall, typing_rules.rule_instance, typing_rules.rule_tyrule,
                   traversal.rule_trav(["fun::typing::check::Check"]), annot.rule_annot_check, panics.rule_panic(("A",))],
         "text": "Rejection discipline of the type checker, decided for every program: zips are length-guarded (R-ZIP), declarations are "
                 "inserted only after a duplicate check that returns Err (R-DUP), binder lists are checked for duplicates before use "
                 "(R-NODUP), no typing Result is dropped or defused and no look-up is defaulted (R-RESULT), the clause-matching and "
-                "arity diagnostics are reachable (R-EXITS), every subterm is checked and annotated (R-TRAV, R-ANNOT), and nothing "
+                "arity diagnostics are reachable (R-EXITS), every subterm is checked and annotated (R-TRAV, R-ANNOT), the typing rule of every simple term form - which subterm is checked in which context against which type - is the rule of the language (R-TYRULE, read off the folded Check::check), and nothing "
                 "reachable from parsing/checking can panic (R-PANIC zone A).",
         "assumptions": ["acceptance of every well-typed program and correctness of type equality itself are not decided"],
     },
